@@ -148,6 +148,10 @@ func (res *Response) Write(data []byte) (int, error) {
 	if cl > 0 && res.bodyWritten+l > cl {
 		return 0, http.ErrContentLength
 	}
+	if cl == 0 && res.header.Get(contentLengthHeader) != "" {
+		// a declared length of 0 is a declaration, too.
+		return 0, http.ErrContentLength
+	}
 
 	if cl > 0 {
 		res.eoncodeHead()
